@@ -430,6 +430,8 @@ def evalFlushInHandler (ins outs : List String) : Verdict :=
   | some n, some to, some more, some del, some hd, some tl, some stored, some keys, some second, some twice =>
     let top := n + more + 2
     -- after the probe delete of the new tail the chain is [to+1 .. top] (or [to .. top] if the probe was not run)
+    if (kvNat? outs "unreadableAtCall").any (· != 0) then
+      .prop "c14_readable_at_call" s!"{(kvNat? outs "unreadableAtCall").getD 0} handler calls could not read their header through GetByHeight with the context they were given" else
     if del != "ok" then .prop "c14_error_returned" s!"delete={del} although no handler failed" else
     if stored.any (· < to) || keys.any (· < to) then .prop "c08_removed" s!"headers below {to} are still there: stored={stored} keys={keys}" else
     if !(tl == to && hd == top) then .prop "c08_pointers" s!"tail={tl} head={hd}, expected {to}..{top}" else
